@@ -385,7 +385,7 @@ def r5(ctx):
         evc = Evaluator(prog, cc.module, cc)
         for call in calls_in(fn):
             if self_call(call) == "fill_window":
-                fa = facts_at(call)
+                fa = facts_at(call, check_kills=False)     # the guards as evaluated (the branch then moves the window)
                 apdu = fn.args.args[1].arg
                 ok = not evc.may_hold(fa, {"self.sentAllSegments": True}) and evc.may_hold(fa, {"self.sentAllSegments": False})
                 ctx.check("%s.%s:more-only-if-unsent" % (cname, mname), ok, where(cc.module, call), "a new burst is sent although all segments were sent")
